@@ -7,21 +7,23 @@ import (
 )
 
 var classes = [][2]rune{
-	{0x20, 0x7E},       // ASCII printable
-	{0xA1, 0xFF},       // Latin-1
-	{0x100, 0x24F},     // Latin extended (cased)
-	{0x391, 0x3C9},     // Greek (cased)
-	{0x410, 0x44F},     // Cyrillic (cased)
-	{0x4E00, 0x4FFF},   // CJK
-	{0x300, 0x36F},     // combining marks
-	{0x1F600, 0x1F64F}, // emoji (non-BMP)
-	{0x10400, 0x1044F}, // Deseret (non-BMP, cased)
-	{0xE000, 0xE0FF},   // private use
-	{0xFF00, 0xFFEF},   // full-width
+	{0x20, 0x7E},         // ASCII printable
+	{0xA1, 0xFF},         // Latin-1
+	{0x100, 0x24F},       // Latin extended (cased)
+	{0x391, 0x3C9},       // Greek (cased)
+	{0x410, 0x44F},       // Cyrillic (cased)
+	{0x4E00, 0x4FFF},     // CJK
+	{0x300, 0x36F},       // combining marks
+	{0x1F600, 0x1F64F},   // emoji (non-BMP)
+	{0x10400, 0x1044F},   // Deseret (non-BMP, cased)
+	{0xE000, 0xE0FF},     // private use
+	{0xFF00, 0xFFEF},     // full-width
+	{0xFFF0, 0xFFFF},     // specials incl. U+FFFD and noncharacters
+	{0x10FFF0, 0x10FFFF}, // last supplementary code points
 }
 
 // ClassNames are the names of the Unicode classes used by UnicodeString.
-var ClassNames = []string{"ascii", "latin1", "latinext", "greek", "cyrillic", "cjk", "combining", "emoji", "deseret", "pua", "fullwidth"}
+var ClassNames = []string{"ascii", "latin1", "latinext", "greek", "cyrillic", "cjk", "combining", "emoji", "deseret", "pua", "fullwidth", "specials", "lastplane"}
 
 // UnicodeString draws n code points; class < 0 mixes all classes.
 func UnicodeString(r *rand.Rand, n int, class int) string {
